@@ -18,8 +18,8 @@ Local Open Scope N_scope.
    exactly the schemas reachable from the methods; list methods (a j5.list.v1.QueryRequest in the
    request, one array of object references in the response) get the paths walked over their item
    object, recursive or not; the OpenAPI conversion succeeds.
-   Outside this statement (see the partial list in pylib/propcfg/C16.py): topics (C16_service_suffixes
-   only), entities. *)
+   topics (<Name>Topic services with <M>Message inputs returning Empty) are accepted and listed in
+   the source API. Outside this statement (see the partial list in pylib/propcfg/C16.py): entities. *)
 Definition C16_full_statement : Prop :=
   forall (to_snake : str -> str) (P : decl_package), valid_package to_snake P ->
     let r := run_chain current_config (compile_image to_snake P) in
@@ -223,6 +223,7 @@ Definition ex_pkg : decl_package :=
             df_parts := [[]; bytes_of "node"; COLON :: bytes_of "nodeId"];
             df_req := [{| p_json := bytes_of "nodeId"; p_ty := TScalar "key" |}; {| p_json := bytes_of "when"; p_ty := TScalar "timestamp" |}];
             df_resp := None |}])];
+     dp_topics := [{| dt_name := bytes_of "TreeFeed"; dt_msgs := [bytes_of "NodeAdded"; bytes_of "NodeDropped"] |}];
      dp_schemas := [(node, SObject [{| p_json := bytes_of "children"; p_ty := TArray (TRef "object" node) |};
                                     {| p_json := bytes_of "payload"; p_ty := TMap (TScalar "bytes") |}])] |}.
 
@@ -273,6 +274,7 @@ Definition ex_list_pkg : decl_package :=
         [{| df_name := bytes_of "ListNodes"; df_verb := GET; df_parts := [[]; bytes_of "nodes"];
             df_req := [{| p_json := bytes_of "query"; p_ty := TRef "object" qr |}];
             df_resp := Some [{| p_json := bytes_of "nodes"; p_ty := TArray (TRef "object" node) |}] |}])];
+     dp_topics := [];
      dp_schemas := [(node, SObject [{| p_json := bytes_of "flag"; p_ty := TScalar "bool" |};
                                     {| p_json := bytes_of "next"; p_ty := TRef "object" node |}]);
                     (qr, SObject [])] |}.
